@@ -4,6 +4,7 @@ import (
 	"context"
 	"crypto/sha1"
 	"fmt"
+	"sync"
 	"sync/atomic"
 	"testing"
 	"time"
@@ -27,17 +28,53 @@ type Item struct {
 
 // Case is one connection's request list (wire) or a call/kill/restart history (transport).
 type Case struct {
-	Mode          string `json:"mode"` // wire | transport
-	Enc           string `json:"enc"`
-	SrvPipelining bool   `json:"srv_pipelining"`
-	SrvDirect     bool   `json:"srv_direct"`
-	Items         []Item `json:"items"`
-	Batches       []int  `json:"batches,omitempty"`
-	Drop          int    `json:"drop"` // wire: -1 none; otherwise the client disconnects after this many items
-	DropQuiet     bool   `json:"drop_quiet,omitempty"`
-	Unix          bool   `json:"unix,omitempty"` // wire mode over real unix sockets
-	Poll          bool   `json:"poll,omitempty"` // ... against a poll-mode server
-	Servers       int    `json:"servers,omitempty"`
+	Mode          string  `json:"mode"` // wire | transport
+	Enc           string  `json:"enc"`
+	SrvPipelining bool    `json:"srv_pipelining"`
+	SrvDirect     bool    `json:"srv_direct"`
+	Items         []Item  `json:"items"`
+	Batches       []int   `json:"batches,omitempty"`
+	Drop          int     `json:"drop"` // wire: -1 none; otherwise the client disconnects after this many items
+	DropQuiet     bool    `json:"drop_quiet,omitempty"`
+	Unix          bool    `json:"unix,omitempty"` // wire mode over real unix sockets
+	Poll          bool    `json:"poll,omitempty"` // ... against a poll-mode server
+	Servers       int     `json:"servers,omitempty"`
+	Rounds        []Round `json:"rounds,omitempty"` // churn mode: one short-lived connection per round
+}
+
+// Round is one short-lived connection of a churn case: it connects (optionally after a silent
+// visitor connected and left, and before or after the previous round's connection is closed),
+// writes its requests with one write call and waits for the answers.
+type Round struct {
+	Srv       int    `json:"srv,omitempty"` // which of the case's servers
+	Conns     int    `json:"conns"`         // connections dialed back to back in this round
+	Reqs      int    `json:"reqs"`
+	Batch     int    `json:"batch,omitempty"` // requests per write call
+	Size      int    `json:"size"`
+	Salt      uint32 `json:"salt,omitempty"`
+	Visitor   bool   `json:"visitor,omitempty"`   // an empty connection is opened and closed just before
+	KeepPrev  bool   `json:"keep_prev,omitempty"` // the previous round's connection is closed after this one dialed
+	NoWaitPrv bool   `json:"no_wait_prev,omitempty"`
+}
+
+func genChurn(t *rapid.T, c *Case) {
+	c.Unix = true
+	c.Poll = rapid.IntRange(0, 3).Draw(t, "poll") > 0
+	c.Servers = rapid.IntRange(1, 6).Draw(t, "servers")
+	n := rapid.IntRange(3, 30).Draw(t, "rounds")
+	for i := 0; i < n; i++ {
+		c.Rounds = append(c.Rounds, Round{
+			Srv:      rapid.IntRange(0, c.Servers-1).Draw(t, "srv"),
+			Conns:    rapid.IntRange(1, 4).Draw(t, "conns"),
+			Reqs:     rapid.SampledFrom([]int{1, 2, 4, 30, 60, 120, 250}).Draw(t, "reqs"),
+			Batch:    rapid.SampledFrom([]int{1, 2, 8, 64}).Draw(t, "batch"),
+			Size:     rapid.SampledFrom([]int{16, 17, 64, 200, 1000, 20000}).Draw(t, "size"),
+			Salt:     rapid.Uint32().Draw(t, "salt"),
+			Visitor:  rapid.IntRange(0, 2).Draw(t, "visitor") == 0,
+			KeepPrev: rapid.IntRange(0, 3).Draw(t, "keep_prev") == 0,
+		})
+	}
+	c.Drop = -1
 }
 
 func genWire(t *rapid.T, c *Case) {
@@ -130,9 +167,13 @@ func gen(t *rapid.T) Case {
 		SrvPipelining: rapid.IntRange(0, 2).Draw(t, "srv_pipe") == 0,
 		SrvDirect:     rapid.Bool().Draw(t, "srv_direct"),
 	}
-	if rapid.IntRange(0, 3).Draw(t, "transport_mode") == 0 {
+	if k := rapid.IntRange(0, 7).Draw(t, "transport_mode"); k <= 1 {
 		c.Mode = "transport"
 		genTransport(t, &c)
+	} else if k == 2 {
+		c.Mode = "churn"
+		genChurn(t, &c)
+		return c
 	} else {
 		c.Mode = "wire"
 		genWire(t, &c)
@@ -147,7 +188,13 @@ func gen(t *rapid.T) Case {
 const bound = 20 * time.Second
 
 func run(c Case) kit.Outcome {
-	if c.Enc != "default" && kit.HeaderEncoder(c.Enc) == nil || len(c.Items) == 0 || len(c.Items) > 2000 {
+	if c.Enc != "default" && kit.HeaderEncoder(c.Enc) == nil || len(c.Items) > 2000 {
+		return kit.Outcome{Invalid: true}
+	}
+	if c.Mode == "churn" {
+		return runChurn(c)
+	}
+	if len(c.Items) == 0 {
 		return kit.Outcome{Invalid: true}
 	}
 	switch c.Mode {
@@ -165,7 +212,7 @@ func junkFrame(enc string, seq uint64) []byte {
 	case "code":
 		b := binaryUvarint(seq)
 		b = append(b, 0x01, kit.RefUpgrade(true, true, true, 0)) // upgrade: 1 byte
-		return append(b, 0x05, 'a')                               // method: claims 5 bytes, has 1
+		return append(b, 0x05, 'a')                              // method: claims 5 bytes, has 1
 	case "json":
 		return []byte(`{"i":` + fmt.Sprint(seq) + `,"u":"4A==","m":"abc`)
 	default:
@@ -601,6 +648,218 @@ func verdictMissing(c Case, cli *kit.ScriptClient, frames []*sent, expected int)
 	return o
 }
 
+// runChurn: a sequence of short-lived connections to one server over real unix sockets (poll-mode
+// or not). Every round dials while or right after the previous connection (and possibly a silent
+// visitor) goes away, so the server tears connections down while it accepts new ones; every
+// request written on a live connection must be executed exactly once and answered.
+func runChurn(c Case) kit.Outcome {
+	if len(c.Rounds) == 0 || len(c.Rounds) > 500 || !c.Unix || len(c.Items) != 0 {
+		return kit.Outcome{Invalid: true}
+	}
+	for _, r := range c.Rounds {
+		if r.Reqs < 1 || r.Reqs > 1000 || r.Batch < 0 || r.Size < kit.HeaderLen || r.Size > 1<<20 || r.Conns < 1 || r.Conns > 8 {
+			return kit.Outcome{Invalid: true}
+		}
+	}
+	if c.Servers < 1 || c.Servers > 8 {
+		return kit.Outcome{Invalid: true}
+	}
+	for _, r := range c.Rounds {
+		if r.Srv < 0 || r.Srv >= c.Servers {
+			return kit.Outcome{Invalid: true}
+		}
+	}
+	m := kit.Modes{Enc: c.Enc, SrvPipelining: c.SrvPipelining, SrvDirect: c.SrvDirect, Link: "unix", Poll: c.Poll}
+	sessions := make([]*kit.Session, c.Servers)
+	prevs := make([][]*kit.ScriptClient, c.Servers)
+	defer func() {
+		var wg sync.WaitGroup
+		for i, sess := range sessions {
+			for _, p := range prevs[i] {
+				p.Close()
+			}
+			if sess != nil {
+				wg.Add(1)
+				go func(sess *kit.Session) { defer wg.Done(); sess.Close() }(sess)
+			}
+		}
+		wg.Wait()
+	}()
+	const churnBound = 10 * time.Second
+	sentArgs := map[uint64][]byte{}
+	visitors, overlaps := 0, 0
+	for ri, r := range c.Rounds {
+		if sessions[r.Srv] == nil {
+			// servers start lazily: the listening probe of the harness (a connection that says
+			// nothing and leaves) is the first visitor of a server whose poll workers just started
+			sess, err := kit.NewSession(m)
+			if err != nil {
+				return kit.Undecided("%v", err)
+			}
+			sessions[r.Srv] = sess
+			visitors++
+		}
+		sess, env := sessions[r.Srv], sessions[r.Srv].Env
+		prev := prevs[r.Srv]
+		prevs[r.Srv] = nil
+		closeAll := func(cs []*kit.ScriptClient) {
+			for _, p := range cs {
+				p.Close()
+			}
+		}
+		if len(prev) > 0 && !r.KeepPrev {
+			closeAll(prev)
+			prev = nil
+		}
+		if r.Visitor {
+			v, err := kit.DialRaw("unix", sess.Addr)
+			if err != nil {
+				return kit.Undecided("dial: %v", err)
+			}
+			v.Close()
+			visitors++
+		}
+		// a burst of connections dialed back to back, then one write per connection
+		var clis []*kit.ScriptClient
+		var raws []*kit.RawConn
+		for j := 0; j < r.Conns; j++ {
+			rc, err := kit.DialRaw("unix", sess.Addr)
+			if err != nil {
+				closeAll(clis)
+				return kit.Undecided("dial: %v", err)
+			}
+			clis = append(clis, kit.NewScriptClientOn(rc, c.Enc, env.Tick))
+			raws = append(raws, rc)
+		}
+		if len(prev) > 0 {
+			closeAll(prev)
+			prev = nil
+			overlaps++
+		}
+		hdrs := make([][]kit.ReqHeader, len(clis))
+		for j := range clis {
+			for k := 0; k < r.Reqs; k++ {
+				id := uint64(ri+1)<<20 | uint64(j)<<10 | uint64(k+1)
+				args := kit.MakePayload(id, kit.DirEcho, r.Salt+uint32(j*1024+k), r.Size)
+				sentArgs[id] = args
+				hdrs[j] = append(hdrs[j], kit.ReqHeader{Seq: uint64(k), Method: kit.Methods[(ri+k)%4], Args: args})
+			}
+		}
+		// the connections write concurrently, Batch requests per write call
+		var swg sync.WaitGroup
+		sendErr := make([]error, len(clis))
+		for j, cli := range clis {
+			swg.Add(1)
+			go func(j int, cli *kit.ScriptClient) {
+				defer swg.Done()
+				b := r.Batch
+				if b < 1 {
+					b = 1
+				}
+				for off := 0; off < len(hdrs[j]); off += b {
+					end := off + b
+					if end > len(hdrs[j]) {
+						end = len(hdrs[j])
+					}
+					if err := cli.SendBatch(hdrs[j][off:end]); err != nil {
+						sendErr[j] = err
+						return
+					}
+				}
+			}(j, cli)
+		}
+		swg.Wait()
+		for _, err := range sendErr {
+			if err != nil {
+				closeAll(clis)
+				return kit.Undecided("send: %v", err)
+			}
+		}
+		for j, cli := range clis {
+			if !cli.WaitResponses(r.Reqs, churnBound) {
+				got := len(cli.Responses())
+				// Not merely slow? The peer has taken every byte this connection wrote out of the
+				// socket, and neither executions nor responses advance any more.
+				execsOf := func() int {
+					n := 0
+					for _, e := range env.Log() {
+						if e.ID>>20 == uint64(ri+1) && (e.ID>>10)&0x3ff == uint64(j) {
+							n++
+						}
+					}
+					return n
+				}
+				e1 := execsOf()
+				time.Sleep(time.Second)
+				outq, _ := raws[j].Queues()
+				if outq == 0 && execsOf() == e1 && len(cli.Responses()) == got && e1 < r.Reqs {
+					closeAll(clis)
+					return kit.Fail("requests-consumed-not-executed", "round %d of %d: connection %d of a burst of %d fresh connections, dialed right after another connection went away, wrote %d requests; the server read all their bytes off the socket but executed only %d of them and wrote %d responses, with no progress any more after %v [poll=%v pipelining=%v direct=%v]", ri, len(c.Rounds), j, len(clis), r.Reqs, e1, got, churnBound, c.Poll, c.SrvPipelining, c.SrvDirect)
+				}
+				closeAll(clis)
+				o := kit.Fail("unanswered-after-churn", "round %d of %d: connection %d of a burst of %d fresh connections, dialed right after another connection went away, wrote %d requests and got %d responses within %v [poll=%v pipelining=%v direct=%v]", ri, len(c.Rounds), j, len(clis), r.Reqs, got, churnBound, c.Poll, c.SrvPipelining, c.SrvDirect)
+				o.Timing = true
+				return o
+			}
+			seen := map[uint64]int{}
+			for _, resp := range cli.Responses() {
+				if resp.DecErr != "" {
+					closeAll(clis)
+					return kit.Fail("garbled-response", "round %d: a response could not be decoded: %s", ri, resp.DecErr)
+				}
+				seen[resp.Seq]++
+				if resp.Seq >= uint64(r.Reqs) || seen[resp.Seq] > 1 {
+					closeAll(clis)
+					return kit.Fail("phantom-response", "round %d: response for sequence number %d (%d requests sent, seen %d times)", ri, resp.Seq, r.Reqs, seen[resp.Seq])
+				}
+				want := kit.Transform(hdrs[j][resp.Seq].Args)
+				if resp.Error != "" || string(resp.Reply) != string(want) {
+					closeAll(clis)
+					return kit.Fail("wrong-reply", "round %d: request %d was answered with error %q / a reply that is not the transform of its arguments", ri, resp.Seq, resp.Error)
+				}
+			}
+		}
+		prevs[r.Srv] = clis
+	}
+	execs := map[uint64]int{}
+	for _, sess := range sessions {
+		if sess == nil {
+			continue
+		}
+		env := sess.Env
+		deadline := time.Now().Add(churnBound)
+		for env.Finished() < env.LogLen() {
+			if time.Now().After(deadline) {
+				return kit.Undecided("handlers still running %v after the end of the case", churnBound)
+			}
+			time.Sleep(100 * time.Microsecond)
+		}
+		for _, e := range env.Log() {
+			execs[e.ID]++
+			args, ok := sentArgs[e.ID]
+			if !ok {
+				return kit.Fail("phantom-execution", "a handler ran for request id %d which was never sent", e.ID)
+			}
+			if e.ArgsSHA != sha1.Sum(args) {
+				return kit.Fail("wrong-arguments", "the handler of request %d received arguments that differ from what was sent", e.ID)
+			}
+		}
+	}
+	for id := range sentArgs {
+		if execs[id] != 1 {
+			return kit.Fail("not-executed-once", "request %d was answered but executed %d times", id, execs[id])
+		}
+	}
+	out := kit.Outcome{Counters: map[string]int{"frames": len(sentArgs), "executions": len(execs), "churn_rounds": len(c.Rounds)}, Classes: []string{"churn", "enc=" + c.Enc, "unix-sockets"}}
+	if c.Poll {
+		out.Classes = append(out.Classes, "poll")
+	}
+	if len(c.Rounds) >= 3 && (visitors > 0 || overlaps > 0) {
+		out.Nontrivial = true
+	}
+	return out
+}
+
 // runTransport: calls through a real Transport / Client against servers that are killed and
 // restarted; no call may execute twice and a successful call executed exactly once.
 func runTransport(c Case) kit.Outcome {
@@ -788,10 +1047,11 @@ func runTransport(c Case) kit.Outcome {
 var prop = kit.Property[Case]{
 	ID:    "C04",
 	Level: "exploration",
-	Rule:  "rapid-generated cases of two kinds. Wire: a scripted client writes 1-200 request frames built with the reference encoder (unary calls to all four handler shapes, some gated; failing handlers; unknown methods; pings; stream open/data/close) to a real Server (4 header encoders x multiplexing/pipelining x direct/async IO), released in drawn batches of 1..64 frames, optionally disconnecting after item j (quietly or with requests queued and executing). Oracle from the execution log and the recorded response frames: executions(id)==1 for every answered request, <=1 for every sent one, 0 for pings/unknown/unsent ids, logged argument digest == sent; responses per sequence number <=1 and ==1 on a connection that stayed up; stream handler invoked once per open, one echo per stream message. Transport: calls of every form through a real Transport and Client against 1-2 servers that the history kills and restarts; executions(id)<=1 always and ==1 for every successful call. Non-trivial (wire): >= 2 handler shapes or a ping or stream traffic, and (a batch > 1 or a drop point); (transport): a kill with both failed and successful calls; distinct by SHA-1 of the case.",
+	Rule:  "rapid-generated cases of three kinds. Wire: a scripted client writes 1-200 request frames built with the reference encoder (unary calls to all four handler shapes, some gated; failing handlers; unknown methods; pings; stream open/data/close) to a real Server (4 header encoders x multiplexing/pipelining x direct/async IO), released in drawn batches of 1..64 frames, optionally disconnecting after item j (quietly or with requests queued and executing). Oracle from the execution log and the recorded response frames: executions(id)==1 for every answered request, <=1 for every sent one, 0 for pings/unknown/unsent ids, logged argument digest == sent; responses per sequence number <=1 and ==1 on a connection that stayed up; stream handler invoked once per open, one echo per stream message. Transport: calls of every form through a real Transport and Client against 1-2 servers that the history kills and restarts; executions(id)<=1 always and ==1 for every successful call. Churn: 1-6 servers over real unix sockets (three quarters poll-mode), started lazily, serve 3-30 rounds; in each round the previous connections of that server are closed (before or after the new ones dialed), optionally a silent visitor connects and leaves, then a burst of 1-4 fresh connections is dialed back to back and each writes 1-250 requests (1-64 per write call) concurrently; every request must be answered with the transform of its own arguments and executed exactly once with the arguments sent; a connection whose bytes the server has consumed (socket send queue empty) without executing them and without further progress is a violation that does not depend on timing. Non-trivial (wire): >= 2 handler shapes or a ping or stream traffic, and (a batch > 1 or a drop point); (transport): a kill with both failed and successful calls; (churn): >= 3 rounds with a visitor or an overlapping close; distinct by SHA-1 of the case.",
 	Assumptions: []string{
 		"a quarter of the wire cases run over real unix sockets (half of them against a poll-mode server) with one write call per batch; the rest over held frame links",
 		"the scripted client speaks the documented wire format (reference encoder)",
+		"churn cases read the socket send queue (TIOCOUTQ) to tell requests the server never read from requests it read and lost",
 	},
 	Gen: gen,
 	Run: run,
